@@ -700,7 +700,7 @@ class NDNeighborAdvertisement (icmp_base):
     if self.is_router: o |= self.ROUTER_FLAG
     if self.is_solicited: o |= self.SOLICITED_FLAG
     if self.is_override : o |= self.OVERRIDE_FLAG
-    o = chr(o)
+    o = bytes([o])
     o += b'\x00' * 3 # _PAD3
     o += self.target.raw
     for opt in self.options:
